@@ -42,7 +42,7 @@ FLOORS = {"quick": {"steps_compared": 2500, "digests_compared": 2500,
                     "mutations": 300, "import_steps": 200},
           "thorough": {"steps_compared": 400000, "digests_compared": 500000,
                        "mutations": 200000, "import_steps": 100000}}
-N_SEQ = {"quick": 2560, "thorough": 150000}
+N_SEQ = {"quick": 5120, "thorough": 150000}
 KINDS = ["valid", "valid", "syntax", "matching", "conversion", "sectiondt",
          "import", "import", "import-broken", "override", "mutate",
          "mutate"]
